@@ -23,11 +23,14 @@ func init() {
 	core.Register(&core.Check{
 		ID:    prop,
 		Level: "model_checking",
-		Rule: "for every hook set of the grammar (families F1..F3 below, <=3 hooks h1..h3 over kinds {ConfigMap,Job} x weights {-1,0,1} x 5 delete-policy sets x event sets) and every initial cluster " +
-			"(no stale hook object | one stale object per hook | all): BFS over histories install -> {upgrade -> {rollback -> uninstall | uninstall} | uninstall}, every step with hooks on and (terminal) with hooks disabled; " +
+		Rule: "for every hook set of the grammar (hooks h1..h3, kinds {ConfigMap,Job}, weights {-1,0,1}, 5 delete-policy sets, attached to the pre or the post events of all four operations unless said otherwise: " +
+			"F1 one hook, full product; F1b one hook on all 8 events; F1e one hook on each single event; F2 two hooks, full product phase^2 x weight^2 x policy^2 x kinds {CJ,JC}(+CC,JJ thorough); " +
+			"F3m three hooks, the 6 mixed phase vectors x one policy for all; F3p three hooks of one phase, all 125 policy vectors; F3o three hooks of one phase, the 13 weak orders of weights (27 vectors thorough) x 4 (8) kind vectors x one policy for all; " +
+			"F2e (thorough) two hooks on all 64 pairs of single events) and every initial cluster (clean | one stale object per hook | all stale): " +
+			"BFS over histories install -> {upgrade -> {rollback -> uninstall | uninstall(thorough)} | uninstall}, every step with hooks on and (terminal) with hooks disabled, thorough also uninstall after every failed step; " +
 			"every transition is the real action on a clone of the state, run fault-free and once per hook-create request (rejected 403) and per hook WatchUntilReady call (error) discovered from the fault-free run; " +
-			"the projection of the server's request log (effective POST/DELETE on hook objects, WatchUntilReady calls, block of release-resource mutations, readiness wait) must equal the reference trace. " +
-			"non-trivial = the operation ran on a chart with hooks and the injected fault (if any) was reached; distinct = (hook set, initial cluster, history incl. fault)",
+			"the projection of the server's request log (effective POST/DELETE on hook objects, WatchUntilReady calls, block of release-resource mutations, readiness wait) must equal the trace of the reference generator. " +
+			"non-trivial = the chart has hooks and the injected fault (if any) was reached; distinct = (driver, initial cluster, history incl. hook set and fault)",
 		Run:    run,
 		Replay: replay,
 		Assumptions: []string{
@@ -159,7 +162,7 @@ func families(thorough bool) []hookSet {
 	// F3o: three hooks in one phase: weight vectors x kind vectors, one policy for all
 	var w3o [][3]int
 	k3o := [][3]int{{0, 0, 0}, {1, 0, 0}, {0, 1, 0}, {1, 1, 0}}
-	pol3o := [][]string{nil, {"hook-succeeded"}}
+	pol3o := policySets
 	if thorough {
 		for _, a := range weights {
 			for _, b := range weights {
@@ -172,7 +175,6 @@ func families(thorough bool) []hookSet {
 		for i := 0; i < 8; i++ {
 			k3o = append(k3o, [3]int{i & 1, (i >> 1) & 1, (i >> 2) & 1})
 		}
-		pol3o = policySets
 	} else {
 		w3o = weakOrders3
 	}
@@ -290,4 +292,3 @@ func toRefFault(f *sim.Fault) *refFault {
 	}
 	return &refFault{Verb: "?", Hook: f.Label}
 }
-
